@@ -281,6 +281,12 @@ def check_program(case):
             got = qualifier_before(toks, i)
             if pos == "conflict_excluded" and got is not None and got.upper() == "EXCLUDED":
                 continue
+            if pos == "conflict_excluded" and got is not None and i >= 4 and toks[i - 3].text == "." and toks[i - 4].kind == "word" and toks[i - 4].value == "EXCLUDED":
+                sig = mksig("any", case["kind"], pos, "aliased" if key and is_aliased(key) else "tbl", "excluded_three_part_name")
+                if sig not in seen:
+                    seen.add(sig)
+                    out.append((sig, "EXCLUDED is followed by a qualified name (%s.%s) in %r" % (got, name, sql)))
+                continue
             if isinstance(exp, tuple):
                 ok = got is None or got == exp[1]
                 fail = "wrong_qualifier"
